@@ -16,7 +16,7 @@ package jsonrpc
 //@ property C06 units: (*client).setupRequestChan$1, (*wsConn).handleCtxAsync, (*wsConn).handleResponse, (*wsConn).cancelCtx, (*wsConn).handleCall, (*wsConn).handleCall$2, (*wsConn).handleCall$3, (*handler).handle, (*wsConn).closeInFlight, (*RPCServer).ServeHTTP, (*handler).handleReader, httpClient$1, (*wsConn).handleFrame
 //@ property C15 units: (*handler).handleReader$1, (*wsConn).handleCall$1, (*lazyWriter).Write$1, websocketClient$2$1, (*RPCServer).handleWS$1, (*wsConn).handleWsConn, (*wsConn).handleCall, (*wsConn).closeInFlight, (*wsConn).nextWriter, (*wsConn).readFrame, (*wsConn).frameExecutor, (*client).sendRequest, (*client).setupRequestChan$1, (*wsConn).handleOutChans, (*wsConn).handleChanOut, withLazyWriter, (*lazyWriter).Write, (*lazyWriter).Write$1$1, (*RPCServer).handleWS
 //@ property C16 units: WithClientHandler$1, websocketClient$2$1, WithReverseClient$1$1, ExtractReverseClient, (*RPCServer).handleWS, (*RPCServer).ServeHTTP, (*client).setupRequestChan$1, (*wsConn).handleChanOut, websocketClient, WithClientHandlerAlias$1, (*wsConn).closeInFlight, (*wsConn).handleWsConn, (*wsConn).handleCall, (*handler).handle
-//@ property C07 units: (*client).makeOutChan$1, (*client).setupRequestChan, (*wsConn).handleOutChans, (*wsConn).handleOutChans$1, (*wsConn).handleChanOut, (*handler).handle, (*wsConn).handleResponse, (*wsConn).handleChanMessage, (*client).makeOutChan$1$1, (*client).makeOutChan$1$2, (*wsConn).handleFrame, (*param).MarshalJSON
+//@ property C07 units: (*client).makeOutChan$1, (*client).setupRequestChan, (*wsConn).handleOutChans, (*wsConn).handleOutChans$1, (*wsConn).handleChanOut, (*handler).handle, (*wsConn).handleResponse, (*wsConn).handleChanMessage, (*client).makeOutChan$1$1, (*client).makeOutChan$1$2, (*wsConn).handleFrame, (*param).MarshalJSON, (*param).UnmarshalJSON
 //@ property C08 units: (*client).makeOutChan$1, (*wsConn).setupPings$5$1, (*wsConn).handleChanOut, (*wsConn).handleOutChans, (*wsConn).handleChanClose, (*wsConn).closeChans, (*wsConn).handleChanMessage, (*wsConn).tryReconnect, (*wsConn).handleWsConn, (*client).makeOutChan$1$1, (*client).makeOutChan$1$2, (*wsConn).handleResponse
 //@ property C11 units: (*ErrClient).Error, (*ErrClient).Unwrap, WithErrors$1, WithServerErrors$1, (*client).setupRequestChan$1, (*handler).createError, (*Errors).Register, NewErrors, (*JSONRPCError).val, (*JSONRPCError).Error, (*rpcFunc).processResponse, (*rpcFunc).processError, (*handler).handle, (response).MarshalJSON, processFuncOut, (*wsConn).handleResponse, NewCustomClient
 //@ property C01 units: WithParamEncoder$1, WithParamDecoder$1, DecodeParams, NewCustomClient, httpClient, (*deadlineResetReader).Read, defaultConfig, defaultServerConfig, processFuncOut, (*param).MarshalJSON, (*param).UnmarshalJSON, (*client).makeRpcFunc, (*client).provide, (*rpcFunc).handleRpcCall, (*rpcFunc).processResponse, (*rpcFunc).processError, (*client).sendRequest, NewCustomClient$1, httpClient$1, (*client).setupRequestChan$1, (*handler).register, (*handler).handle, doCall, (response).MarshalJSON, (*wsConn).handleResponse, (*wsConn).handleCall, NewMethodNameFormatter$1, (*RPCServer).AliasMethod
@@ -70,10 +70,10 @@ package jsonrpc
 //@ core C09 C12: (*handler).handle, (*handler).handleReader, rpcError, rpcError$1, doCall
 //@ core C14: normalizeID
 //@ core C01 C02 C04 C05 C11 C16: (*rpcFunc).handleRpcCall, (*client).makeRpcFunc, (*rpcFunc).processResponse, (*rpcFunc).processError, (*client).sendRequest, processFuncOut, (*JSONRPCError).val, (*handler).createError
-//@ core C04 C09 C10 C13 C15: (*wsConn).handleCall, (*wsConn).readFrame, (*wsConn).frameExecutor
+//@ core C04 C09 C10 C13 C15: (*wsConn).handleCall, (*wsConn).handleCall$2, (*wsConn).handleCall$3, (*wsConn).readFrame, (*wsConn).frameExecutor
 //@ -- module-wide rules (global ...) of these properties are checked in EVERY function of the module, not only in the
 //@ -- units listed above: code added anywhere (a new helper, a new goroutine body, a callback) is held to them too
-//@ sweep C14, C02, C03, C04, C05, C06, C07, C08, C13, C15, C16
+//@ sweep C14, C02, C03, C04, C05, C06, C07, C08, C13, C15, C16, C01, C09, C12, C10, C11, C19, C20
 //@ -- ownership of the connection tables: which function may change which table (module-wide frame conditions)
 //@ global at mapdel wsConn.inflight: assert a-call-is-forgotten-only-once-answered: infunc("(*wsConn).handleResponse") [C02,C03,C16,C05]
 //@ global at mapset wsConn.inflight: assert calls-are-registered-only-by-the-connection-loop: infunc("(*wsConn).handleWsConn") [C02,C03]
@@ -85,9 +85,17 @@ package jsonrpc
 //@ global at call (*wsConn).resetReadDeadline: assert read-deadline-extended-only-where-the-peer-was-heard: infunc("(*wsConn).nextMessage|(*wsConn).handleWsConn") [C03]
 //@ global-forbid at recv *: assert callbacks-run-under-locks-or-at-shutdown-never-wait: !infunc("(*wsConn).setupPings$5") [C15,C08,C03]
 //@ global-forbid at mapdel var:readers: assert a-rendezvous-entry-is-never-removed-while-a-peer-may-wait-on-it: false [C20]
+//@ global-forbid at call (*encoding/json.Decoder).UseNumber: assert arguments-decode-with-encoding-jsons-default-number-type: false [C01,C12]
+//@ global-forbid at call (*encoding/json.Decoder).DisallowUnknownFields: assert arguments-decode-with-encoding-jsons-default-strictness: false [C01,C12]
+//@ global-forbid at store net/http.Transport.ResponseHeaderTimeout: assert the-default-http-client-sets-no-deadline-of-its-own-on-calls: false [C06,C03]
+//@ global-forbid at store net/http.Client.Timeout: assert the-default-http-client-sets-no-deadline-of-its-own-on-calls: false [C06,C03]
+//@ global-forbid at call (*go.uber.org/zap.SugaredLogger).Errorw: assert the-raw-panic-payload-is-only-handed-to-the-formatter: !infunc("doCall$1") [C13]
+//@ global-forbid at call (*github.com/gorilla/websocket.Conn).CloseHandler: assert control-frames-are-not-written-through-handler-getters: false [C14,C15]
+//@ global-forbid at call (*github.com/gorilla/websocket.Conn).PingHandler: assert control-frames-are-not-written-through-handler-getters: false [C14,C15]
+//@ global-forbid at call (*github.com/gorilla/websocket.Conn).PongHandler: assert control-frames-are-not-written-through-handler-getters: false [C14,C15]
 //@ global at call (reflect.Value).Call: assert user-code-runs-only-under-the-panic-guard: infunc("doCall|auth.PermissionedProxy$1") [C13,C04]
-//@ global-forbid at call (*github.com/gorilla/websocket.Conn).WriteControl: assert control-frames-also-under-writeLk: heldclass("wsConn.writeLk") [C14]
-//@ global-forbid at call (*github.com/gorilla/websocket.Conn).SetWriteDeadline: assert no-sticky-write-deadline-shared-by-all-writers: false [C14]
+//@ global-forbid at call (*github.com/gorilla/websocket.Conn).WriteControl: assert control-frames-also-under-writeLk: heldclass("wsConn.writeLk") [C14,C15,C09]
+//@ global-forbid at call (*github.com/gorilla/websocket.Conn).SetWriteDeadline: assert no-sticky-write-deadline-shared-by-all-writers: false [C14,C09,C03,C15]
 //@ global-forbid at call sync/atomic.StoreUint64: assert channel-id-counter-only-grows: false [C07,C08]
 //@ global-forbid at call sync/atomic.StoreInt64: assert request-id-counter-only-grows: false [C02]
 //@ chaninv wsConn.readError: read-errors-are-errors: $val != nil [C03]
@@ -833,7 +841,7 @@ package jsonrpc
 
 //@ func (*param).UnmarshalJSON
 //@   safety
-//@   ensures keeps-a-private-copy-of-the-raw-bytes: result == nil && len(p.data) == len(raw) && p.data.base != raw.base && (forall k :: 0 <= k && k < len(raw) ==> p.data[k] == raw[k]) [C01]
+//@   ensures keeps-a-private-copy-of-the-raw-bytes: result == nil && len(p.data) == len(raw) && p.data.base != raw.base && (forall k :: 0 <= k && k < len(raw) ==> p.data[k] == raw[k]) [C01,C07]
 
 //@ func (*param).MarshalJSON
 //@   ghost mres : U = nil
@@ -932,6 +940,7 @@ package jsonrpc
 //@   at ret (io.Reader).Read: set rn = $result0
 //@   at ret (io.Reader).Read: set rerr = $result1
 //@   ensures frame-bytes-pass-through-unchanged: result0 == rn && result1 == rerr [C01,C14,C03]
+//@   at store deadlineResetReader.lastReset: assert the-slow-read-clock-restarts-only-when-the-deadline-was-renewed: calls(reset) == 1 [C01,C03]
 
 //@ func (*handler).handleReader$1
 //@   requires cb != nil
